@@ -460,6 +460,11 @@ theorem exec_inv (cfg : Cfg) (st : St) (a : Act) (hn : a.notTimeout = true) (h :
   generalize (!e && match bcGet st b with | some i => i.conn | none => false) = c
   cases c <;> simp [Act.notTimeout]
 
+theorem issueTo_acts {cfg : Cfg} {st : St} {n : Int} {o : ReqOwner} {e : Bool} {w : ReqWhat} {m : Option Rat} {rj : Bool}
+    {i : IssueOk} (hi : issueTo cfg st n o e w m rj = .ok i) : i.acts.all Act.notTimeout = true := by
+  obtain ⟨st1, b, obs1, _, _, _, _, h4⟩ := issueTo_ok hi
+  rw [h4]; exact makeRequest_acts ..
+
 /-- no action ever schedules the firing of a request timer: only the clock does -/
 theorem exec_acts (cfg : Cfg) (st : St) (a : Act) : (exec cfg st a).2.2.all Act.notTimeout = true := by
   cases a
@@ -469,7 +474,8 @@ theorem exec_acts (cfg : Cfg) (st : St) (a : Act) : (exec cfg st a).2.2.all Act.
   all_goals (first
     | rfl
     | (simp [List.all_map, List.all_append, List.all_flatMap, Function.comp_def, Act.notTimeout]; done)
-    | (simp_all [List.all_map, List.all_append, Function.comp_def, Act.notTimeout]; done))
+    | (simp_all [List.all_map, List.all_append, Function.comp_def, Act.notTimeout]; done)
+    | (rename_i he; exact issueTo_acts he))
 
 theorem runActs_inv (cfg : Cfg) : ∀ (fuel : Nat) (st : St) (acts : List Act) (obs : List Ob),
     SInv st → acts.all Act.notTimeout = true → SInv (runActs cfg fuel st acts obs).1
@@ -723,6 +729,22 @@ theorem exec_timers (cfg : Cfg) (h0 : 0 ≤ cfg.timeout) (h1 : 0 ≤ cfg.retryDe
         · cases hg; exact ⟨rfl, rfl⟩
   have hsub : ∀ (w : TimerWhat) (t : Timer), t ∈ (cancelTimer st w).timers → t ∈ st.timers := by
     intro w t ht; exact (List.mem_filter.mp ht).1
+  have hie : ∀ {n : Int} {o : ReqOwner} {e : Bool} {w : ReqWhat} {m : Option Rat} {rj : Bool} {er : IssueErr},
+      issueTo cfg st n o e w m rj = .error er → er.st.now = st.now ∧ er.st.timers = st.timers := by
+    intro n o e w m rj er he
+    rcases issueTo_err he with ⟨h1, _⟩ | ⟨b, hg⟩
+    · rw [h1]; exact ⟨rfl, rfl⟩
+    · exact hgb hg
+  have hio : ∀ {n : Int} {o : ReqOwner} {e : Bool} {w : ReqWhat} {m : Option Rat} {rj : Bool} {i : IssueOk},
+      issueTo cfg st n o e w m rj = .ok i → i.st.now = st.now ∧ ∀ t ∈ i.st.timers, t ∈ st.timers ∨ st.now ≤ t.due := by
+    intro n o e w m rj i hi
+    obtain ⟨st1, b, obs1, hg, hst, _, _, _⟩ := issueTo_ok hi
+    obtain ⟨g1, g2⟩ := hgb hg
+    rw [hst]
+    refine ⟨(hmr _ _ _ _ _ _).1.trans g1, fun t ht => ?_⟩
+    rcases (hmr _ _ _ _ _ _).2 t ht with h | h
+    · left; rw [← g2]; exact h
+    · right; rw [← g1]; exact h
   by_cases hq : a.quiet = true
   · have hc := exec_quiet cfg st a hq
     have h2 : (exec cfg st a).1.timers = st.timers := congrArg Prod.snd hc
@@ -797,17 +819,8 @@ theorem exec_timers (cfg : Cfg) (h0 : 0 ≤ cfg.timeout) (h1 : 0 ≤ cfg.retryDe
               obtain ⟨_, _, heq⟩ := hs
               cases heq; rfl
         · split
-          · exact ⟨rfl, fun t ht => Or.inl ht⟩
-          · rename_i xx st1 b obs1 hg
-            dsimp only
-            obtain ⟨g1, g2⟩ := hgb hg
-            refine ⟨?_, fun t ht => ?_⟩
-            · simp only [setUnaware_now]
-              exact (hmr _ _ _ _ _ _).1.trans g1
-            · simp only [setUnaware_timers] at ht
-              rcases (hmr _ _ _ _ _ _).2 t ht with h | h
-              · left; rw [← g2]; exact h
-              · right; rw [← g1]; exact h
+          · rename_i he; exact ⟨(hie he).1, fun t ht => Or.inl ((hie he).2 ▸ ht)⟩
+          · rename_i he; exact ⟨(hio he).1, fun t ht => (hio he).2 t ht⟩
     case issueSlot s j =>
       simp only [exec]
       split
@@ -816,35 +829,18 @@ theorem exec_timers (cfg : Cfg) (h0 : 0 ≤ cfg.timeout) (h1 : 0 ≤ cfg.retryDe
         · split
           · exact ⟨rfl, fun t ht => Or.inl ht⟩
           · split
-            · exact ⟨rfl, fun t ht => Or.inl ht⟩
-            · rename_i xx st1 b obs1 hg
-              obtain ⟨g1, g2⟩ := hgb hg
-              split
-              · exact ⟨g1, fun t ht => Or.inl (g2 ▸ ht)⟩
-              · dsimp only
-                refine ⟨?_, fun t ht => ?_⟩
-                · simp only [setSend_now]
-                  exact (hmr _ _ _ _ _ _).1.trans g1
-                · simp only [setSend_timers] at ht
-                  rcases (hmr _ _ _ _ _ _).2 t ht with h | h
-                  · left; rw [← g2]; exact h
-                  · right; rw [← g1]; exact h
+            · rename_i he; exact ⟨(hie he).1, fun t ht => Or.inl ((hie he).2 ▸ ht)⟩
+            · rename_i he; exact ⟨(hio he).1, fun t ht => (hio he).2 t ht⟩
         · exact ⟨rfl, fun t ht => Or.inl ht⟩
     case srtcGo r =>
       simp only [exec]
-      repeat' split
-      all_goals (try dsimp only)
-      all_goals (first
-        | exact ⟨rfl, fun t ht => Or.inl ht⟩
-        | (rename_i xx st1 b obs1 hg
-           obtain ⟨g1, g2⟩ := hgb hg
-           refine ⟨?_, fun t ht => ?_⟩
-           · simp only [setSend_now, setSrtc_now]
-             exact (hmr _ _ _ _ _ _).1.trans g1
-           · simp only [setSend_timers, setSrtc_timers] at ht
-             rcases (hmr _ _ _ _ _ _).2 t ht with h | h
-             · left; rw [← g2]; exact h
-             · right; rw [← g1]; exact h))
+      split
+      · exact ⟨rfl, fun t ht => Or.inl ht⟩
+      · split
+        · exact ⟨rfl, fun t ht => Or.inl ht⟩
+        · split
+          · rename_i he; exact ⟨(hie he).1, fun t ht => Or.inl ((hie he).2 ▸ ht)⟩
+          · rename_i he; exact ⟨(hio he).1, fun t ht => (hio he).2 t ht⟩
     case bootResult j r =>
       simp only [exec]
       repeat' split
